@@ -109,6 +109,12 @@ CHECKS = {
   design_ref="DESIGN.md §6 C15",
   note="The third-party CBOR decoder is abstracted as well-formed-or-not; only the outer version-down is accepted with unchanged content.",
   technique="TLA+ spec (Envelope.tla) model-checked with TLC; expected outcome per (level, component) class replayed over every byte position of real exports"),
+ "C19": dict(
+  category="model_checking",
+  text="LdsView.tla states the parsed view of every LDS file kind as a function of its content SHAPE (which optional data objects are present, how often each repeated element occurs and in which template, independent of tag-list / element order, BCD or character dates and length form), the outer-tag rule AcceptedAs, the identity-summary precedence rules (DG11 over MRZ for name and date of birth with the MRZ values always surfaced, all images of all templates, EF.SOD over EF.COM for the versions) and a life-cycle state machine (construct / caller overwrites its buffer / caller edits the parsed struct / re-construct / export / import) with the invariants 'the object's raw bytes are the file' and 'the view is the view of exactly those bytes'. TLC enumerates the shapes (13.6k quick: pairwise optional subsets x repetitions 0..3 x encodings, all template arrangements of DG2, SecurityInfos type multisets, SOD versions, 208 kind x data-group pairings, 2.5k summary arrangements; every optional subset in thorough), checks encoding independence and no-element-dropped on the specification, and prints the specified view of each; the harness concretises every shape with fresh distinguishable values, encodes it with its own encoder and compares the view of the real constructors / DocumentEx.Summary with (a) the specified shape, (b) the independent reference decoding of the same bytes; every life-cycle behaviour is replayed on real documents with the state compared after each action. Plus random content over all 13 kinds, every constructor against every other kind's files, and foreign-template-in-front files.",
+  design_ref="DESIGN.md §6 C19",
+  note="The reference decoding (harness/lds) is my second reading of Doc 9303-10 / ISO 19794-5 / 39794-5; not asserted: empty components of '<'-separated lists (dropped on purpose), efCVCA of TerminalAuthenticationInfo (not exposed), the OID arc of EFDIRInfo.",
+  technique="TLA+ spec (LdsView.tla) enumerated with TLC; specified view per shape and life-cycle behaviours replayed into the real constructors, compared with an independent reference decoding"),
 }
 PENDING = {}
 
